@@ -172,6 +172,23 @@ func ShortRead(p *load.Program, run *report.Run, pkgs []string, files map[string
 			discarded := false
 			switch s := n.(type) {
 			case *ast.AssignStmt:
+				// line, isPrefix, err := r.ReadLine() with isPrefix discarded: a line longer than the
+				// reader's buffer comes back in pieces and the rest is taken for the next line
+				if len(s.Rhs) == 1 && len(s.Lhs) == 3 {
+					if cl, ok := s.Rhs[0].(*ast.CallExpr); ok {
+						if sel, ok := cl.Fun.(*ast.SelectorExpr); ok && sel.Sel.Name == "ReadLine" {
+							if rt := c.pkg.TypesInfo.TypeOf(sel.X); rt != nil && strings.HasSuffix(rt.String(), "bufio.Reader") {
+								run.Count("read-sites", 1)
+								key := c.name + "/" + c.text(sel.X) + ".ReadLine()"
+								if id, ok := s.Lhs[1].(*ast.Ident); ok && id.Name == "_" {
+									run.Violate(rule, key, c.p.Rel(cl.Pos()), "isPrefix of bufio.Reader.ReadLine discarded: a line longer than the buffer (4096 bytes by default) is returned in pieces, the writer's long lines do not parse back", nil)
+								} else {
+									run.OK(rule, key, c.p.Rel(cl.Pos()), "isPrefix is read")
+								}
+							}
+						}
+					}
+				}
 				if len(s.Rhs) == 1 && len(s.Lhs) == 2 {
 					if cl, ok := s.Rhs[0].(*ast.CallExpr); ok {
 						if id, ok := s.Lhs[0].(*ast.Ident); ok && id.Name == "_" {
@@ -278,10 +295,28 @@ func UnboundedIndexStore(p *load.Program, run *report.Run, pkgs []string, files 
 					run.Count("counter-index-stores", 1)
 					bounded := false
 					for _, g := range guardsFor(fs.Body, m) {
-						t := c.text(g.cond)
-						if g.negated && strings.Contains(t, v.Name) && (strings.Contains(t, ">=") || strings.Contains(t, ">")) {
-							bounded = true
+						if !g.negated {
+							continue
 						}
+						// the guard leaves the loop when v >= bound or v > bound holds (written in either direction)
+						var disj func(e ast.Expr)
+						disj = func(e ast.Expr) {
+							e = ast.Unparen(e)
+							if be, ok := e.(*ast.BinaryExpr); ok && be.Op == token.LOR {
+								disj(be.X)
+								disj(be.Y)
+								return
+							}
+							if big, _, _, ok := ordCmp(e); ok {
+								ast.Inspect(big, func(nn ast.Node) bool {
+									if id, ok := nn.(*ast.Ident); ok && c.pkg.TypesInfo.ObjectOf(id) == vobj {
+										bounded = true
+									}
+									return true
+								})
+							}
+						}
+						disj(g.cond)
 					}
 					if bounded {
 						run.OK(rule, key, c.p.Rel(ix.Pos()), "bound check precedes the store")
@@ -449,6 +484,10 @@ func Rounding(p *load.Program, run *report.Run, pkgs []string, files map[string]
 				return true
 			}
 			if be.Op == token.SHR {
+				if d >= 32 {
+					// taking the top bits of a machine word (a carry, a sign) is not a unit conversion
+					return true
+				}
 				d = 1 << uint(d)
 			}
 			x := c.text(be.X)
@@ -658,8 +697,8 @@ func advancesByMultiples(c *fnCtx, e ast.Expr, d int64) bool {
 			switch t := n.(type) {
 			case *ast.IfStmt:
 				// the clamp: if v > r { v = r }
-				if be, ok := t.Cond.(*ast.BinaryExpr); ok && be.Op == token.GTR && is(be.X, v) && t.Else == nil && t.Init == nil && len(effective(c.pkg.TypesInfo, t.Body.List)) == 1 {
-					if as, ok := effective(c.pkg.TypesInfo, t.Body.List)[0].(*ast.AssignStmt); ok && as.Tok == token.ASSIGN && len(as.Lhs) == 1 && is(as.Lhs[0], v) && c.text(as.Rhs[0]) == c.text(be.Y) {
+				if big, small, strict, ok := ordCmp(t.Cond); ok && strict && is(big, v) && t.Else == nil && t.Init == nil && len(effective(c.pkg.TypesInfo, t.Body.List)) == 1 {
+					if as, ok := effective(c.pkg.TypesInfo, t.Body.List)[0].(*ast.AssignStmt); ok && as.Tok == token.ASSIGN && len(as.Lhs) == 1 && is(as.Lhs[0], v) && c.text(as.Rhs[0]) == c.text(small) {
 						return false
 					}
 				}
@@ -767,4 +806,23 @@ func intSize(b *types.Basic) int {
 		return 4
 	}
 	return 8
+}
+
+// ordCmp reads an ordered comparison in either direction: big > small (strict) or big >= small.
+func ordCmp(e ast.Expr) (big, small ast.Expr, strict, ok bool) {
+	be, isBin := ast.Unparen(e).(*ast.BinaryExpr)
+	if !isBin {
+		return nil, nil, false, false
+	}
+	switch be.Op {
+	case token.GTR:
+		return be.X, be.Y, true, true
+	case token.GEQ:
+		return be.X, be.Y, false, true
+	case token.LSS:
+		return be.Y, be.X, true, true
+	case token.LEQ:
+		return be.Y, be.X, false, true
+	}
+	return nil, nil, false, false
 }
